@@ -168,6 +168,23 @@ class NPFacade:
     def atleast_1d(self, a):
         return np.atleast_1d(a)
 
+    def isclose(self, a, b, rtol=1e-05, atol=1e-08, equal_nan=False):
+        if isinstance(a, SymReal) or isinstance(b, SymReal):
+            a, b = symx.wrap(a), symx.wrap(b)
+            return abs(a - b) <= atol + rtol * abs(b)
+        return np.isclose(a, b, rtol=rtol, atol=atol, equal_nan=equal_nan)
+
+    def allclose(self, a, b, rtol=1e-05, atol=1e-08, equal_nan=False):
+        if symx.has_sym(a) or symx.has_sym(b) or isinstance(a, SymReal) or isinstance(b, SymReal):
+            aa, bb = np.broadcast_arrays(np.asarray(a, dtype=object), np.asarray(b, dtype=object))
+            r = True
+            for idx in np.ndindex(*aa.shape):
+                x, y = symx.wrap(aa[idx]), symx.wrap(bb[idx])
+                c_ = abs(x - y) <= atol + rtol * abs(y)
+                r = c_ if r is True else (r & c_)
+            return r
+        return np.allclose(a, b, rtol=rtol, atol=atol, equal_nan=equal_nan)
+
 
 def to_bit(x):
     """int(x) for a mask value x in [0,1]: 1 iff x >= 1 (truncation), as a 0/1 SymReal"""
